@@ -365,16 +365,22 @@ func init() {
 	}
 	ext("C09", "unary body reader (readAll) on bodies below, at and above the receive limit over every read partition: terminates (a path that exhausts the step budget is a violation: the reader loops without consuming input)",
 		HarnessSpec{Name: "VerifH_readAll", Terminates: true, StepsQ: 400000, StepsT: 400000, Covers: []string{"within", "at-limit", "over"}})
-	for _, id := range []string{"C06", "C03"} {
-		ext(id, "client-streaming method over plain HTTP through ServeHTTP: 1..3 messages (length-delimited protobuf or JSON framing, symbolic bytes) in a body of known length, of unknown length (HTTP/2 style, ContentLength -1) or chunked: exactly the messages in order, then a clean end of stream, then the reply",
-			HarnessSpec{Name: "VerifH_serveHTTP_clientstream", Covers: []string{"content-length", "unknown-length", "chunked"}})
+	for _, id := range []string{"C06", "C03", "C09"} {
+		ext(id, "client-streaming method over plain HTTP through ServeHTTP (also under a user codec that is not a StreamCodec: an error, not a crash): 1..3 messages (length-delimited protobuf or JSON framing, symbolic bytes) in a body of known length, of unknown length (HTTP/2 style, ContentLength -1) or chunked: exactly the messages in order, then a clean end of stream, then the reply",
+			HarnessSpec{Name: "VerifH_serveHTTP_clientstream", Covers: []string{"content-length", "unknown-length", "chunked", "codec-without-streaming"}})
 	}
 	ext("C03", "an HttpBody request message retained by its handler stays equal to what was sent while a later request reuses the pooled buffers",
 		HarnessSpec{Name: "VerifH_pool_alias", Covers: []string{"two-requests"}})
-	ext("C06", "server-streaming method over plain HTTP through ServeHTTP: 0..2 replies of 0..2 symbolic bytes in length-delimited framing: the response body is exactly the replies in order",
-		HarnessSpec{Name: "VerifH_serveHTTP_serverstream", Covers: []string{"two-replies", "no-reply"}})
+	for _, id := range []string{"C06", "C09"} {
+		ext(id, "server-streaming method over plain HTTP through ServeHTTP: 0..2 replies of 0..2 symbolic bytes in length-delimited framing: the response body is exactly the replies in order (also under a user codec that is not a StreamCodec: an error, not a crash)",
+			HarnessSpec{Name: "VerifH_serveHTTP_serverstream", Covers: []string{"two-replies", "no-reply", "codec-without-streaming"}})
+	}
 	ext("C09", "one of 14 protocol headers (message / content / accept encodings, grpc-timeout, te, upgrade, connection, WebSocket handshake fields, '-bin' metadata, content-length, twirp-version) set to 0..2 (quick) / 0..3 (thorough) arbitrary bytes on the gRPC, gRPC-web, transcoding and WebSocket-handshake entries, with and without a stats handler: exactly one well-formed response, no crash",
 		HarnessSpec{Name: "VerifH_entry_headers", Covers: []string{"answered"}})
+	for _, id := range []string{"C13", "C06"} {
+		ext(id, "client-streaming upload over plain HTTP with Content-Encoding: gzip (real gzip, pooled reader; 1..2 messages; body length known / unknown), then two decompressions in flight at once must each read their own stream",
+			HarnessSpec{Name: "VerifH_gzip_stream", StepsQ: 40000000, StepsT: 40000000, Covers: []string{"gzip-upload", "unknown-length", "two-decompressions"}})
+	}
 	wkt := "well-known-type parameters (google.protobuf wrappers, FieldMask, Duration, Timestamp) through the real parseQueryParams / parseParam / quote / params.set: the empty text for each of 10 types, a menu of 40 boundary texts (non-BMP strings, 32/64-bit limits, duration range and Go-style units, leap days, RFC 3339 range), symbolic texts of 1..3 (quick) / 1..4 (thorough) bytes for StringValue, BoolValue, Int32Value / UInt32Value, BytesValue, FieldMask; protojson's scalar forms modelled (model_wkt.go), generated messages seen through a fake reflection view"
 	for _, id := range []string{"C03", "C09", "C01"} {
 		ext(id, wkt, HarnessSpec{Name: "VerifH_params_wkt", Covers: []string{"empty-value", "menu-accepted", "menu-rejected", "string-wrapper", "bool-wrapper", "int-wrapper", "int-wrapper-rejected", "bytes-wrapper", "fieldmask", "fieldmask-rejected"}})
